@@ -115,6 +115,35 @@ class StmtMixin:
             for i, t in enumerate(terms):
                 extras[i].append(m == t)
             return m
+        def heap_ite(terms):
+            # heap arrays: when every path's value is the common base with stores at the same single object,
+            # merge the stored VALUE (named) instead of the whole array
+            base = None
+            objs = []
+            vals = []
+            ok = True
+            for t in terms:
+                if z3.is_store(t) and not z3.is_store(t.arg(0)):
+                    b, o, v = t.arg(0), t.arg(1), t.arg(2)
+                else:
+                    b, o, v = t, None, None
+                if base is None:
+                    base = b
+                elif not base.eq(b):
+                    ok = False
+                    break
+                objs.append(o)
+                vals.append(v)
+            if ok:
+                os_ = [o for o in objs if o is not None]
+                if os_ and all(o.eq(os_[0]) for o in os_[1:]):
+                    o = os_[0]
+                    vs = [v if v is not None else z3.Select(base, o) for v in vals]
+                    return z3.Store(base, o, ite(vs))
+            r = terms[-1]
+            for i in range(len(terms) - 2, -1, -1):
+                r = z3.If(sel == i, terms[i], r)
+            return r
         # heap
         fids = set()
         for s in states:
@@ -128,7 +157,7 @@ class StmtMixin:
                     if t is None:
                         raise _NoMerge()
                 ts.append(t)
-            out.heap[fid] = ts[0] if all(t.eq(ts[0]) for t in ts[1:]) else ite(ts)
+            out.heap[fid] = ts[0] if all(t.eq(ts[0]) for t in ts[1:]) else heap_ite(ts)
         # cells
         cids = set()
         for s in states:
@@ -157,7 +186,12 @@ class StmtMixin:
                     continue
                 continue
             out.locals[n] = self._merge_vals(vs, ite, out)
-        out.pc.append(z3.Or(*[z3.And(sel == i, *ex) for i, ex in enumerate(extras)]))
+        # (sel=0 and F0) or (sel=1 and F1) ...  ==  sel in range, and each fact guarded by its selector: keeps every
+        # fact a separate hypothesis (relevance slicing, E-matching)
+        out.pc.append(z3.And(sel >= 0, sel < len(states)))
+        for i, ex in enumerate(extras):
+            for fct in ex:
+                out.pc.append(z3.Implies(sel == i, fct))
         return out
 
     def _merge_vals(self, vs, ite, out):
@@ -809,6 +843,8 @@ class StmtMixin:
             v = st.locals.get(name)
             if isinstance(v, Cont) and not v.frozen and isinstance(v.loc, CellLoc):
                 v.loc.write(st, fresh('lv_' + name, v.t.sort()))
+                if v.t.kind == 'list':
+                    st.assume(v.t.acc('len')(v.loc.read(st)) >= 0)
         # objects may be allocated inside the loop: the allocation set only grows
         allocates = any(isinstance(n, ast.Call) and isinstance(n.func, ast.Name) and n.func.id[:1].isupper()
                         for n in ast.walk(node))
